@@ -187,6 +187,10 @@ class Ctx:
         if self.replaying:
             return
         if self.labels.get(label, 0) < minimum:
+            if self.failures or any(k.startswith('budget_hit:') for k in self.labels):
+                # violations cut cases short (or the tier budget ran out): report, don't mask
+                self.notes.append(f'class {label!r} reached only {self.labels.get(label, 0)} < {minimum} times')
+                return
             raise HarnessError(
                 f'generator does not reach class {label!r}: '
                 f'{self.labels.get(label, 0)} < {minimum}'
